@@ -53,6 +53,9 @@ def run(F, rep):
         from rules import c19
         c19.g8_rule(F, rep, "C11-P9")
         c19.g9_rule(F, rep, "C11-P9")
+    # ------------------------------------------------------------ P10: the three variants on small references
+    if getattr(F, "cfg", "dev") == "dev":
+        variants_rule(F, rep)
     # ------------------------------------------------------------ P1
     nk = 0
     for f in F.funcs.values():
@@ -322,3 +325,93 @@ def _local_of(f, name):
         if n == name:
             return l
     return 0
+
+
+def variants_rule(F, rep, rule="C11-P10"):
+    """The in-memory, streaming and first-sample variants are interpreted (feedint.FeedInterp: the FASTA reader replaced by a feed
+    of records, hash sets as sets, rayon's indexed iterators as ordered iterators) on small random references - contigs with N,
+    repeats, a duplicated contig, a contig shorter than k - for k in 2..4 and two segment sizes:
+      * all three return the same (splitters, singletons, duplicates); the first-sample variant is given the reference followed
+        by the records of two more samples, which must not change its result;
+      * singletons / duplicates are the canonical k-mers occurring exactly once / more than once in the reference (from-scratch
+        oracle), they are disjoint, and the splitters are singletons;
+      * reversing the contig order and reverse-complementing a contig leaves singletons and duplicates unchanged."""
+    import random
+    from feedint import FeedInterp
+    from absint import Undecidable, Panic
+    from rules.c20 import _canon_windows
+    S = "ragc_core::splitters::"
+    mem, stream, first = F.funcs.get(S + "determine_splitters"), F.funcs.get(S + "determine_splitters_streaming"), F.funcs.get(S + "determine_splitters_streaming_first_sample")
+    if not rep.floor(rule, sum(1 for x in (mem, stream, first) if x), 3, "the three splitter-selection variants"):
+        return
+
+    def sets(r):
+        if isinstance(r, dict) and r.get("__var") == "Ok":
+            r = r.get(0, r.get("0"))
+        if isinstance(r, dict) and r.get("__var") == "Err":
+            return "Err"
+        return tuple(frozenset(r[i]["__set"]) for i in range(3))
+
+    def run(f, args, feed):
+        it = FeedInterp(F, max_steps=3000000)
+        it.world = {"feed": feed}
+        return sets(it.call(f, args))
+    rnd = random.Random(11)
+    bad = {"agree": [], "later": [], "oracle": [], "order": []}
+    undec, n = None, 0
+    try:
+        for trial in range(36):
+            k = 2 + trial % 3
+            seg = (3, 6)[(trial // 3) % 2]
+            nc = 1 + rnd.randrange(3)
+            contigs = []
+            for ci in range(nc):
+                L = rnd.choice((k - 1, k, k + 2, 9, 14, 20))
+                c = [rnd.randrange(4) for _ in range(L)]
+                if L > 6 and rnd.random() < 0.4:
+                    c[rnd.randrange(L)] = 4
+                contigs.append(c)
+            if nc > 1 and rnd.random() < 0.3:
+                contigs[-1] = list(contigs[0])
+            ref = [("R#1#c%d" % i, "R#1", "c%d" % i, c) for i, c in enumerate(contigs)]
+            others = [("S%d#1#c%d" % (si, i), "S%d#1" % si, "c%d" % i, [rnd.randrange(4) for _ in range(rnd.choice((9, 14, 20)))]) for si in (2, 3) for i in range(2)]
+            others[0] = (others[0][0], others[0][1], others[0][2], list(contigs[0][1:]) + [rnd.randrange(4) for _ in range(5)])
+            n += 1
+            a = run(mem, [("refval", [list(c) for c in contigs]), k, seg], [])
+            b = run(stream, ["/ref.fa", k, seg], ref)
+            c1 = run(first, ["/ref.fa", k, seg], ref)
+            c2 = run(first, ["/all.fa", k, seg], ref + others)
+            tag = "k=%d, segment size %d, contigs %s" % (k, seg, contigs)
+            if not (a == b == c1):
+                bad["agree"].append("%s: in-memory %s, streaming %s, first-sample %s" % (tag, _szs(a), _szs(b), _szs(c1)))
+            if c1 != c2:
+                bad["later"].append("%s: %s for the reference alone, %s when the records of later samples follow" % (tag, _szs(c1), _szs(c2)))
+            cnt = {}
+            for cg in contigs:
+                for v in _canon_windows(cg, k):
+                    cnt[v] = cnt.get(v, 0) + 1
+            single, dup = frozenset(v for v, m in cnt.items() if m == 1), frozenset(v for v, m in cnt.items() if m > 1)
+            if a != "Err" and not (a[1] == single and a[2] == dup and not (a[1] & a[2]) and a[0] <= a[1]):
+                bad["oracle"].append("%s: %d singletons (expected %d), %d duplicates (expected %d), splitters within singletons: %s" % (tag, len(a[1]), len(single), len(a[2]), len(dup), a[0] <= a[1]))
+            rc = [list(cg) for cg in contigs[::-1]]
+            rc[0] = [(3 - x) if x < 4 else x for x in rc[0][::-1]]
+            a2 = run(mem, [("refval", rc), k, seg], [])
+            if a != "Err" and a2 != "Err" and (a[1], a[2]) != (a2[1], a2[2]):
+                bad["order"].append("%s: singletons/duplicates change when the contigs are reversed and one is reverse-complemented" % tag)
+    except Panic as e:
+        bad["agree"].append("panics: %s" % e)
+    except Undecidable as e:
+        undec = str(e)
+    site = "%s:%d" % (first.file, first.line_lo)
+    for key, text in (("agree", "the in-memory, streaming and first-sample variants return the same sets for the same reference"),
+                      ("later", "the first-sample variant's result does not depend on the records that follow the first sample"),
+                      ("oracle", "singletons and duplicates are the canonical k-mers occurring once / more than once, are disjoint, and splitters are singletons"),
+                      ("order", "singletons and duplicates do not depend on contig order or orientation")):
+        rep.ob(rule, text + " (%d small references evaluated)" % n, undec is None and not bad[key],
+               detail=("undecidable construct: %s" % undec) if undec else ("; ".join(bad[key][:2]) if bad[key] else "%d references" % n), site=site,
+               key="%s | variants | %s" % (rule, key))
+    rep.stat("splitter_references_evaluated", n)
+
+
+def _szs(t):
+    return t if t == "Err" else "(%d splitters, %d singletons, %d duplicates)" % (len(t[0]), len(t[1]), len(t[2]))
